@@ -12,7 +12,7 @@ SRC = os.environ.get("SEED_SRC", "/tmp/seed_out")
 PREFIX = os.environ.get("SEED_PREFIX", "")  # e.g. "r2" for second-round changes
 DST = "/verif/seeded"
 # checks to run besides the property's own one (the change also breaks these properties)
-ALSO = {"C01/m3": ["C04"], "C05/m2": ["C06"], "C02/m2": ["C04"], "C02/m3": ["C04"], "C14/m3": ["C02"], "C10/m1": ["C08"], "C16/m3": ["C15"], "C02/r2m2": ["C18"], "C01/r2m3": ["C04"]}
+ALSO = {"C01/m3": ["C04"], "C05/m2": ["C06"], "C02/m2": ["C04"], "C02/m3": ["C04"], "C14/m3": ["C02"], "C10/m1": ["C08"], "C16/m3": ["C15"], "C02/r2m2": ["C18"], "C01/r2m3": ["C04"], "C03/r2m1": ["C04"], "C07/r2m1": ["C18", "C08"], "C09/r2m2": ["C20"], "C08/r2m1": ["C07", "C18"], "C03/r2m2": ["C01"]}
 
 def try_check(patch, cid):
     p = subprocess.run(["/verif/tools/try_mutant.sh", patch, cid], capture_output=True, text=True, errors="replace")
